@@ -58,6 +58,8 @@ class LifecycleMonitor(Monitor):
         self.msgs = {}       # serial -> list of payloads
         self.delivered_probes = set()
         self.tag_delivered = set()
+        self.silent_since = {}   # (client index, session) -> tick at which that client stopped sending for good
+        self.replays = []        # (client index, datagram, since tick): delivered again every 8 ticks
         self.cr_replace = []     # armed: inner types that replace client 1's next challenge response
         self.cr_replaced = False
         self.objs = {}
@@ -180,7 +182,15 @@ def menu(w, mon, ts, tick):
     for k in (0, 1):
         ce = w.clients[k]
         if ce.client is not None and ce.client.conn is not None:
-            out.append(("client %d goes silent" % k, lambda ce=ce: ce.client.forceDisconnect()))
+            out.append(("client %d goes silent" % k, lambda ce=ce, k=k: (mon.silent_since.__setitem__((k, ce.session), w.tickno), ce.client.forceDisconnect())))
+            mine_k = [d for d in w.all_sent if d.src == "c%d" % k and len(d.data) >= 20 and d.data[12] in (4, 6)]
+            if mine_k:
+                def silent_replayed(ce=ce, k=k, d=mine_k[-1]):
+                    # the client dies, but the network (or an attacker) keeps delivering one of its old datagrams
+                    mon.silent_since[(k, ce.session)] = w.tickno
+                    ce.client.forceDisconnect()
+                    mon.replays.append((k, d.data, w.tickno))
+                out.append(("client %d goes silent and its last datagram is delivered again every 8 ticks from now on" % k, silent_replayed))
             out.append(("client %d disconnects" % k, lambda ce=ce: ce.client.disconnect()))
             out.append(("client %d sends" % k, lambda k=k: client_send(w, k)))
     out.append(("client 0 reconnects from the same address", lambda: connect_client(w, 0)))
@@ -308,7 +318,18 @@ def scenario(params, ch):
                         probes.append((ce.index, ce.session))
             if t == shutdown_at:
                 w.ctxt.shutdown()
+            for k_, data_, t0_ in mon.replays:
+                if (t - t0_) % 8 == 0 and t > t0_ and w.ctxt._active:
+                    w.inject("s", data_, client_addr=w.clients[k_].addr, note="replay")
             w.tick()
+            # silence timeout: connection timeout 0.5 s = 32 ticks; a client that stopped sending is disconnected in time
+            for (k_, sess_), t0_ in mon.silent_since.items():
+                if w.ctxt._active and t - t0_ == 32 + 10 and t < shutdown_at - 2:
+                    sids = [s_ for s_, o_ in mon.owner.items() if o_ == (k_, sess_)]
+                    if any(mon.state.get(s_) == "connected" for s_ in sids):
+                        ch.flag("disconnect-once", "a client that went silent is not disconnected after the connection timeout%s" % (
+                            " (old datagrams of it keep arriving)" if any(r[0] == k_ for r in mon.replays) else ""),
+                            "client %d session %d silent since tick %d, still connected at tick %d (timeout 32 ticks)" % (k_, sess_, t0_, t))
             if mon.cr_replaced and w.clients[1].client is not None and w.clients[1].client.conn is not None and not getattr(mon, "c1_stopped", False):
                 mon.c1_stopped = True
                 w.clients[1].client.forceDisconnect()      # the rogue peer never completes the handshake
